@@ -423,6 +423,8 @@ type c08seedDoc struct {
 	pks   []*gabikeys.PublicKey
 	ctx   *big.Int
 	nonce *big.Int
+	// reject: the document itself is malformed (and so is everything derived from it)
+	reject bool
 }
 
 // c08Corpus builds honest lists.
@@ -430,6 +432,9 @@ func c08Corpus(r *mon.Run, jr *rand.Rand, keyNames []string) []*c08seedDoc {
 	var out []*c08seedDoc
 	shapes := [][]string{
 		{"D"}, {"Dn"}, {"Dr"}, {"Dnr"}, {"U"}, {"Ub"}, {"D", "U"}, {"Dnr", "Ub"}, {"Dn", "D", "U"}, {"Dr", "Dr"}, {"Dr3"},
+		// cryptographically consistent lists that are nevertheless malformed: a member discloses attribute 0 and so carries
+		// no secret-key response (every member passes its own challenge check; only the linking step can refuse the list)
+		{"D0"}, {"D", "D0"}, {"D0", "D"}, {"U", "D0"}, {"D", "D0", "D"}, {"Dn", "D0n"}, {"D0", "D0"},
 	}
 	for _, kn := range keyNames {
 		k := world.Fixture(kn)
@@ -481,7 +486,11 @@ func c08Corpus(r *mon.Run, jr *rand.Rand, keyNames []string) []*c08seedDoc {
 						stm[3] = []*rangeproof.Statement{st2}
 					}
 				}
-				b, err := c.C.CreateDisclosureProofBuilder([]int{1}, stm, nonrev)
+				dset := []int{1}
+				if strings.Contains(s, "0") {
+					dset = []int{0, 1}
+				}
+				b, err := c.C.CreateDisclosureProofBuilder(dset, stm, nonrev)
 				if err != nil {
 					bad = true
 					break
@@ -503,7 +512,14 @@ func c08Corpus(r *mon.Run, jr *rand.Rand, keyNames []string) []*c08seedDoc {
 			if json.Unmarshal(doc, &rt) != nil {
 				continue
 			}
-			ok, _, _ := verifyList(rt, pks, ctx, nonce, false, nil)
+			reject := strings.Contains(strings.Join(shape, "+"), "0")
+			ok, pvc, _ := verifyList(rt, pks, ctx, nonce, false, nil)
+			if reject {
+				// kept whatever the verdict: the identity document goes through every entry point with class M1
+				r.Eval("corpus-malformed", outcome(ok, pvc))
+				out = append(out, &c08seedDoc{name: kn + ":" + strings.Join(shape, "+"), doc: doc, pks: pks, ctx: ctx, nonce: nonce, reject: true})
+				continue
+			}
 			r.Eval("corpus", outcome(ok, nil))
 			if ok {
 				out = append(out, &c08seedDoc{name: kn + ":" + strings.Join(shape, "+"), doc: doc, pks: pks, ctx: ctx, nonce: nonce})
@@ -527,6 +543,13 @@ type c08exec struct {
 // run feeds one document to every entry point. class != "" means the document must be rejected.
 func (x *c08exec) run(worker int, seed *c08seedDoc, m jmut) {
 	r := x.r
+	// documents derived from a consistent-but-malformed list must be refused by ProofList.Verify; their members are proper
+	// proofs on their own entry points (a stand-alone ProofD may disclose attribute 0)
+	listOnly := false
+	if seed.reject && m.class == "" {
+		m.class = "M1"
+		listOnly = true
+	}
 	if x.scratch != "" {
 		_ = os.WriteFile(filepath.Join(x.scratch, fmt.Sprintf("inflight-%d.json", worker)), m.doc, 0o644)
 	}
@@ -651,7 +674,7 @@ func (x *c08exec) run(worker int, seed *c08seedDoc, m jmut) {
 			if pv != nil {
 				report("ProofD.Verify", pv, stack)
 			}
-			if ok && len(members) == 1 {
+			if ok && len(members) == 1 && !listOnly {
 				accepted("ProofD.Verify")
 			}
 		case *gabi.ProofU:
@@ -661,7 +684,7 @@ func (x *c08exec) run(worker int, seed *c08seedDoc, m jmut) {
 			if pv != nil {
 				report("ProofU.Verify", pv, stack)
 			}
-			if ok && len(members) == 1 {
+			if ok && len(members) == 1 && !listOnly {
 				accepted("ProofU.Verify")
 			}
 		}
